@@ -1,10 +1,10 @@
 (** Extraction of the C09 models (ExtrOcamlBasic only). *)
 From Coq Require Import ZArith List.
 From Coq Require Import ExtrOcamlBasic.
-From Webp Require Anim.Blend Anim.Canvas Anim.AnimDec Anim.AnimDecOps.
+From Webp Require Anim.Blend Anim.Canvas Anim.AnimDec Anim.AnimDecOps Anim.AnimDecLoops.
 
 Separate Extraction
   BinInt.Z.add BinInt.Z.mul BinInt.Z.sub BinInt.Z.opp BinInt.Z.div BinInt.Z.modulo
   BinInt.Z.eqb BinInt.Z.ltb BinInt.Z.leb BinInt.Z.of_nat BinInt.Z.to_nat BinInt.Z.of_N BinInt.Z.to_N
   BinNat.N.add BinNat.N.mul BinNat.N.of_nat BinNat.N.to_nat
-  Anim.AnimDecOps.prun Anim.AnimDecOps.srun Anim.AnimDecOps.pinit Anim.AnimDec.impl_run Anim.Canvas.spec_run Anim.Blend.blend_impl Anim.Blend.blend_spec.
+  Anim.AnimDecOps.prun Anim.AnimDecOps.srun Anim.AnimDecOps.pinit Anim.AnimDecLoops.impl_run_loops Anim.AnimDec.impl_run Anim.Canvas.spec_run Anim.Blend.blend_impl Anim.Blend.blend_spec.
